@@ -196,6 +196,7 @@ func run(env *core.Env, rep *core.Report, prop string) *core.Result {
 		stageN = 2000
 	}
 	stages := s.stageLevel(grammar, stageN)
+	stages += s.unsupportedBuiltins(prop)
 	cliRuns := 0
 	if prop == "C07" {
 		csel := clis
@@ -249,3 +250,44 @@ func CheckC06(env *core.Env, rep *core.Report) *core.Result { return run(env, re
 
 // CheckC07 is the engine behind C07.
 func CheckC07(env *core.Env, rep *core.Report) *core.Result { return run(env, rep, "C07") }
+
+// unsupportedBuiltins: a command the embedded shell cannot execute (it panics on builtins it does not
+// implement: umask, trap, ...) is a command that FAILS - the task reports an error, its remaining
+// commands and its after hook do not run, the process neither dies of a panic nor reports success.
+// Through the binary (a panic must not take the check down).
+func (s *shared) unsupportedBuiltins(prop string) int {
+	n := 0
+	for _, bad := range []string{"umask 022", "trap 'echo bye' EXIT", "echo x; umask 077; echo y"} {
+		for _, allow := range []bool{false, true} {
+			d := s.env.Sub("builtin")
+			home := s.env.Sub("bhome")
+			trace := filepath.Join(d, "trace")
+			y := fmt.Sprintf("tasks:\n  t:\n    allow_failure: %v\n    command:\n      - echo first >> %s\n      - %q\n      - echo third >> %s\n    after: [\"echo after >> %s\"]\n", allow, trace, bad, trace, trace)
+			_ = ioutil.WriteFile(filepath.Join(d, "tasks.yaml"), []byte(y), 0o644)
+			res := core.RunBin(d, core.CleanEnv(home), 20*time.Second, "", s.env.Taskctl, "--raw", "t")
+			n++
+			b, _ := ioutil.ReadFile(trace)
+			got := strings.Join(strings.Fields(string(b)), " ")
+			detail := map[string]interface{}{"yaml": y, "exit": res.Exit, "trace": got, "stderr": tailS(res.Stderr, 600)}
+			switch {
+			case res.TimedOut || res.Crashed():
+				for _, p := range []string{"C06", "C07"} {
+					s.rep.Add(core.Finding{Prop: p, Key: p + ":builtin:process-dies-on-a-command-the-shell-cannot-execute", What: fmt.Sprintf("a task whose second command is %q: taskctl died (%s) instead of reporting the task as failed", bad, firstLineOf(res.Stderr)), Detail: detail})
+				}
+			case !allow && (res.Exit == 0 || got != "first"):
+				s.rep.Add(core.Finding{Prop: "C07", Key: "C07:builtin:unexecutable-command-not-reported-as-a-failure", What: fmt.Sprintf("a task whose second command is %q (the embedded shell cannot execute it): exit %d, executed %q; expected a failure after \"first\"", bad, res.Exit, got), Detail: detail})
+				s.rep.Add(core.Finding{Prop: "C06", Key: "C06:builtin:commands-ran-after-an-unexecutable-command", What: fmt.Sprintf("a task whose second command is %q: executed %q; expected \"first\" only", bad, got), Detail: detail})
+			}
+		}
+	}
+	return n
+}
+
+func firstLineOf(s string) string {
+	for _, l := range strings.Split(s, "\n") {
+		if strings.TrimSpace(l) != "" {
+			return l
+		}
+	}
+	return ""
+}
